@@ -186,7 +186,7 @@ def _refreshed_post(self, path, result, trace):
     return sym.wrap_bool(tm.Ite(B(same), B(same_object(result, self)), B(fresh)))
 
 
-@contract("stepup/core/hash.py::FileHash.refreshed", props=["C13", "C04", "C06"])
+@contract("stepup/core/hash.py::FileHash.refreshed", props=["C13", "C04", "C06", "C03"])
 class refreshed:
     args = dict(self=FileHashRec, path=ty.Str, cancel_event=ty.Opt(ty.Make(CancelEvent)))
     env = FS_ENV
@@ -242,7 +242,7 @@ def replay_refreshed(o):
 
 from vc.report import replayer  # noqa: E402
 
-for _p in ("C13", "C04", "C06"):
+for _p in ("C13", "C04", "C06", "C03"):
     replayer(f"{_p}/FileHash.refreshed/post.result")(replay_refreshed)
 
 
